@@ -83,4 +83,15 @@ example : (mpnBinvert 2 6 12 Fft.mulmod_2expp1_basecase id (fun _ => 7) [3, 5, 9
     (val (mpnBinvert 2 6 12 Fft.mulmod_2expp1_basecase id (fun _ => 7) [3, 5, 9] [5, 5, 5] (List.replicate 238 9)).1 * val [3, 5, 9])
       % B ^ 3 = 1 := by decide +kernel
 
+/-- **`sizes[NPOWS]` is large enough** (binvert.c:43-50, :64, :69-71): for every BINV_NEWTON_THRESHOLD ≥ 2 and every
+    `n ≤ 2^46` limbs (beyond that the operand is not addressable) the schedule pushes at most
+    `NPOWS = 48 − LOG2C (BINV_NEWTON_THRESHOLD)` entries. -/
+theorem binvert_npows_ok (thr n : Nat) (hthr : 2 ≤ thr) (hn : 1 ≤ n) (hn46 : n ≤ 2 ^ 46) :
+    (schedule thr n n).1.length ≤ npows thr :=
+  schedule_len thr n n (npows thr) hn (by have := npows_bound thr hthr; omega)
+
+-- non-vacuity: threshold 300: NPOWS = 39; 2^46 limbs need 38 entries; threshold 2 needs 46 of 46
+example : npows 300 = 39 ∧ (schedule 300 (2 ^ 46) (2 ^ 46)).1.length = 38 ∧ npows 2 = 46 ∧
+    (schedule 2 (2 ^ 46) (2 ^ 46)).1.length = 46 := by decide +kernel
+
 end Mpir.Binvert
